@@ -1,6 +1,8 @@
 package main
 
 import (
+	"encoding/binary"
+	"crypto/sha256"
 	"bytes"
 	"encoding/base64"
 	"fmt"
@@ -51,8 +53,41 @@ func encodeMac(m *macaroon.Macaroon) string {
 	return base64.RawURLEncoding.EncodeToString(bin)
 }
 
+// mintKey is how the library turns (secret, server name) into the macaroon root key. The statement does not say; the
+// harness needs it only to re-mint tokens with chosen caveats "under the right secret". Each candidate is probed once
+// against the library (a token with exactly the three caveats and a far expiry must validate); if none fits, the
+// re-minting cases report token:rejects-reminted-genuine.
+var mintKeys = []func(secret []byte, server string) []byte{
+	func(secret []byte, server string) []byte { return secret },
+	func(secret []byte, server string) []byte {
+		h := sha256.New()
+		var n [8]byte
+		binary.BigEndian.PutUint64(n[:], uint64(len(secret)))
+		h.Write(n[:])
+		h.Write(secret)
+		h.Write([]byte(server))
+		return h.Sum(nil)
+	},
+}
+var mintKey func(secret []byte, server string) []byte
+
+func probeMintKey() {
+	secret, server, user := []byte("probe secret"), "probe.example", "@probe:probe.example"
+	for _, k := range mintKeys {
+		mintKey = k
+		tok := mint(secret, server, user, tokens.Gen, tokens.UserPrefix+user, tokens.TimePrefix+"99999999999")
+		if tokens.ValidateToken(tokens.TokenOptions{ServerPrivateKey: secret, ServerName: server, UserID: user}, tok) == nil {
+			return
+		}
+	}
+	mintKey = mintKeys[0]
+}
+
 func mint(secret []byte, server, id string, caveats ...string) string {
-	m, err := macaroon.New(secret, []byte(id), server, macaroon.V2)
+	if mintKey == nil {
+		probeMintKey()
+	}
+	m, err := macaroon.New(mintKey(secret, server), []byte(id), server, macaroon.V2)
 	if err != nil {
 		panic(err)
 	}
@@ -216,6 +251,25 @@ func runC20(c *mon.Ctx) {
 				b := append([]byte{}, bin...)
 				b[i] ^= 0x01
 				reject("server-name-in-token-changed", op, base64.RawURLEncoding.EncodeToString(b))
+			}
+			{
+				// the holder rewrites or removes the server name the token carries (no key needed) and presents it to a
+				// validator that goes by that name - same secret, as where one secret serves several names
+				for _, newName := range []string{"other-" + server, ""} {
+					m2, _, err := decodeMac(tok)
+					if err != nil {
+						break
+					}
+					m2.SetLocation(newName)
+					o := op
+					o.ServerName = newName
+					reject("server-name-rewritten:validated-under-the-new-name", o, encodeMac(m2))
+					reject("server-name-rewritten:validated-under-the-issuing-name", op, encodeMac(m2))
+				}
+				// and the unaltered token under another name
+				o := op
+				o.ServerName = "other-" + server
+				reject("validated-under-another-server-name", o, tok)
 			}
 			reject("empty", op, "")
 			reject("not-base64", op, tok+"*")
